@@ -28,6 +28,7 @@ func c08(c *eng.Ctx, r *eng.Report) {
 		"R8.12 Stream.Kind() reports size 0 for a single byte below 0x80 as well as for the empty string/list, so wherever its size result is tested for zero the kind result of the same call is tested too on that path (`size == 0 && kind != Byte`) — otherwise a one-byte value is taken for an empty one; " +
 		"R8.13 no function of the package hands out or stores the address of an element of a slice field that the package also appends to (the pointer goes stale when the slice grows — list headers are written through such pointers); " +
 		"R8.14 what EncodeToBytes hands out is the caller's own: encbuf.toBytes returns a slice it allocated on every path, never (a re-slice of) a field of the pooled encbuf, which the next encoding overwrites; " +
+		"R8.17 what a decode returns depends on its input alone: the rlp functions reachable from Decode, DecodeBytes and (*Stream).Decode keep no state between calls other than the reviewed per-type codec table — no pool of Streams, no package-level scratch (a pooled Stream that is not reset completely starts the next decode inside the list a failed one left open: a valid encoding is rejected with `rlp: end of list`); " +
 		"R8.15 readUint converts its 8-byte scratch buffer as a whole, so every byte of it is written in that call: the unused high-order bytes are zeroed before the value bytes are read (the buffer lives as long as the Stream; a narrower integer after a wider one must not inherit its high bytes); " +
 		"R8.16 a nil pointer is written as the empty form of what it points to — 0x80 for a byte array, 0xC0 for other arrays, structs and slices: makePtrWriter tests the element type of the pointed-to array (typ.Elem().Elem()), the decoder's `rlp:\"nil\"` rule accepts exactly that; " +
 		"R8.11 willRead returns nil only on paths that charged the read to both budgets: the enclosing list's position (or no list is open) and the stream's remaining input limit (or the stream is unlimited). " +
@@ -48,6 +49,7 @@ func c08(c *eng.Ctx, r *eng.Report) {
 	c08FreshOutput(c, r)
 	c08UintScratch(c, r)
 	c08NilPointerForm(c, r)
+	c08DecoderPure(c, r)
 }
 
 // payloadExempt: functions that pull bytes from the input without being the
@@ -1044,4 +1046,49 @@ func c08NilPointerForm(c *eng.Ctx, r *eng.Report) {
 		}
 	}
 	r.Check(bad == "" && n >= 1, rule, "nil-pointer:byte-array-form", c.Pos(fn.Pos()), "the byte test is applied to the element type of the pointed-to array", "makePtrWriter applies isByte to "+bad+" — the pointed-to type itself, not the element type of the array it points to: the byte-array case never matches, a nil *[N]byte (*common.Address, *common.Hash) is written as 0xC0 instead of 0x80, accepted bytes no longer re-encode to themselves and a contract-creation transaction (nil recipient) changes its hash")
+}
+
+// c08DecoderPure: see R8.17.
+func c08DecoderPure(c *eng.Ctx, r *eng.Report) {
+	const rule = "R8.17"
+	r.Min(rule, 1)
+	reviewed := map[string]string{
+		"global-store:storage/rlp.cachedTypeInfo1": "codec table memoised per Go type and tags under typeCacheMutex: a hit and a miss yield the same decoder",
+		"global-store:storage/rlp.cachedTypeInfo":  "read side of the same table",
+	}
+	var entries []*ssa.Function
+	for _, n := range []string{"Decode", "DecodeBytes", "(*Stream).Decode"} {
+		if f := c.Func(rlpPkg, n); f != nil {
+			entries = append(entries, f)
+		}
+	}
+	if !r.Anchor(len(entries) == 3, rule, "rlp.Decode, rlp.DecodeBytes, (*Stream).Decode") {
+		return
+	}
+	in := func(fn *ssa.Function) bool { return strings.HasSuffix(eng.FuncPkgPath(fn), "/"+rlpPkg) }
+	cone := c.ConeOf(entries, in)
+	hits, n := 0, 0
+	for _, fn := range cone.Sorted() {
+		if !in(fn) || fn.Blocks == nil {
+			continue
+		}
+		n++
+		for _, h := range eng.ScanNondeterminism(fn) {
+			switch h.Kind {
+			case "shared-object", "global-store", "cache":
+			default:
+				continue
+			}
+			key := h.Kind + ":" + eng.FuncName(fn)
+			if why, ok := reviewed[key]; ok {
+				r.Pass(rule, key, c.Pos(h.Pos), "reviewed: "+why)
+				continue
+			}
+			hits++
+			r.Fail(rule, key, c.Pos(h.Pos), h.Detail+" in the cone of the decoder ("+cone.PathTo(fn)+"): decoder state then outlives the call — a Stream taken from a pool and reset incompletely keeps the list stack of an earlier, failed decode, and the next well-formed input is rejected (or bounded by the old list instead of its own length)")
+		}
+	}
+	if hits == 0 {
+		r.Pass(rule, "decoder:pure", "", fmt.Sprintf("%d rlp functions under the decode entry points keep nothing between calls beyond the reviewed type table", n))
+	}
 }
